@@ -428,3 +428,38 @@ def generic_next(I, m, a, dt):
 @model(r'^<(.*) as Iterator>::size_hint$')
 def generic_size_hint(I, m, a, dt):
     return VTuple([VInt(0, 'usize'), none()])
+
+def clone_iter(I, it):
+    it = deref(I, it)
+    if not isinstance(it, VObj): raise Unsupported(f'clone of iterator {it!r}')
+    if it.kind == 'chars': return VObj('chars', s=it.s, i=it.i)
+    if it.kind == 'veciter': return VObj('veciter', items=list(it.items), pos=it.pos, end=it.end)
+    if it.kind == 'peekable': return VObj('peekable', inner=clone_iter(I, it.inner), peeked=it.peeked, tyname=getattr(it, 'tyname', None))
+    if it.kind == 'range': return VObj('range', cur=it.cur, end=it.end, ty=it.ty)
+    raise Unsupported('clone of iterator kind ' + it.kind)
+@model(r'^<(?:std::iter::|core::iter::)?(?:adapters::peekable::)?Peekable<.*> as Clone>::clone$|^<(?:std::str::|core::str::)?Chars<\'_> as Clone>::clone$')
+def iter_clone(I, m, a, dt): return clone_iter(I, a[0])
+
+def ad_take_while_next(I, it):
+    if getattr(it, 'done', False): return none()
+    x = iter_next(I, it.inner, getattr(it, 'tyname', None))
+    if x.variant == 'None': return x
+    keep = I.call(it.f, [VRef(Cell(x.items[0]), [])])
+    if I.branch(keep.v): return x
+    it.done = True
+    return none()
+ITER_NEXT['ad_take_while'] = ad_take_while_next
+def ad_skip_while_next(I, it):
+    if getattr(it, 'started', False): return iter_next(I, it.inner, getattr(it, 'tyname', None))
+    for _ in range(4096):
+        x = iter_next(I, it.inner, getattr(it, 'tyname', None))
+        if x.variant == 'None': return x
+        skip = I.call(it.f, [VRef(Cell(x.items[0]), [])])
+        if not I.branch(skip.v): it.started = True; return x
+    raise PathEnd('bound', 'skip_while loop')
+ITER_NEXT['ad_skip_while'] = ad_skip_while_next
+@model(r'^<(.*) as Iterator>::(skip_while|map_while)(?:::<.*>)?$')
+def iter_adapter2(I, m, a, dt):
+    k = m.group(2)
+    if k == 'skip_while': return adapter('ad_skip_while', inner=a[0], f=a[1], tyname=m.group(1))
+    raise Unsupported('adapter ' + k)
